@@ -83,6 +83,7 @@ class Interp:
         self.reads = []  # (name, selected (kind, site) | None, candidates, in_fill)
         self.var_tokens = []  # one record per printed variable, in output order
         self.captured = []  # frames captured by the fills currently being rendered (between frames + loop copies)
+        self.captured_lex = []  # parallel: was the capturing fill lexically scoped (isolated mode / `only`)?
         self.last_read = None
         self.in_defaultref = 0
         self.alias_stack = []  # alias bindings of the fills currently being rendered
@@ -117,7 +118,13 @@ class Interp:
         self.reads.append((name, sel, cands, in_fill))
         def base(kind):
             kind = kind.split(":")[-1]
+            if kind.startswith("unspec-"):
+                kind = kind[7:]
             return "for" if kind == "leak" else kind
+
+        # (a `with` between tag and fill is re-wrapped as an "unspec-with" frame in a lexically scoped fill: it is the same
+        # captured binding, recognised by kind and site)
+        cap_sites = {(base(c[0]), c[1]) for c in self.captured}
 
         self.last_read = {
             "name": name,
@@ -128,11 +135,13 @@ class Interp:
             "fill_aliases": {k: v for fr in self.alias_stack for k, v in fr.items() if isinstance(v, dict)},
             # is the innermost fill being rendered lexically scoped (isolated mode / `only`)?
             "lexical": self.fill_lexical[-1] if self.fill_lexical else None,
+            # frames captured by a lexically scoped fill that is still being rendered (possibly an OUTER one)
+            "lexical_captured_sites": [(base(c[0]), c[1]) for c, lx in zip(self.captured, self.captured_lex) if lx],
             # loops that dynamically enclose this read: on the evaluation stack, or captured for a fill being rendered
             "dyn_loop_sites": sorted({str(x) for x in self.loop_stack} | {str(c[1]) for c in self.captured if base(c[0]) == "for"}),
             "defaultref_env_cands": [(base(k), s) for e in self.defaultref_envs for k, s, vs in e if vs is not None and name in vs],
             # candidates incl. frames the statement does not order (so that a defect model can name them)
-            "cands": [(base(k), s, any(fr is c for c in self.captured)) for fr in env for k, s, vs in [fr] if vs is not None and name in vs],
+            "cands": [(base(k), s, any(fr is c for c in self.captured) or (k.startswith("unspec-with") and (base(k), s) in cap_sites)) for fr in env for k, s, vs in [fr] if vs is not None and name in vs],
         }
 
     # ------------------------------------------------------------------ evaluation
@@ -469,6 +478,7 @@ class Interp:
             # (an implicit body has no {% fill %} tag, hence no captured layer)
             cap = [] if c.site == "implicit" else [fr for fr in c.def_env if fr[0].split(":")[-1] in ("for", "leak")] + list(c.between)
             self.captured.extend(cap)
+            self.captured_lex.extend([self.mode == ISOLATED or bool(getattr(inst, "only", False))] * len(cap))
             self.alias_stack.append(aliases)
             self.fill_lexical.append(self.mode == ISOLATED or bool(getattr(inst, "only", False)))
             try:
@@ -477,6 +487,7 @@ class Interp:
                 self.fill_lexical.pop()
                 self.alias_stack.pop()
                 del self.captured[len(self.captured) - len(cap) :]
+                del self.captured_lex[len(self.captured_lex) - len(cap) :]
         if flags.get("required"):
             raise Expected("TemplateSyntaxError", f"required slot '{name}' not filled")
         self.events["slot_default"] += 1
